@@ -12,6 +12,12 @@ mod verif_c01_compose {
     use crate::verif_common::*;
 
     fn run(use_println: bool) {
+        let status: u8 = kani::any();
+        kani::assume(status < 3);
+        run_status(use_println, status);
+    }
+
+    fn run_status(use_println: bool, status: u8) {
         unsafe {
             SLEN = 0;
             DRAWS = 0;
@@ -26,14 +32,14 @@ mod verif_c01_compose {
             stack_push(b'O');
         }
         let now = mk_instant(1_000_000, 0);
-        let status: u8 = kani::any();
-        kani::assume(status < 3);
         let ps = rig_pstate(1, Some(2), 0, status);
         let mut bs = rig_bar(ps, rig_style_empty(), null_target(16, 8, b), ProgressFinish::AndLeave);
         if use_println {
             bs.println(now, "x");
         } else {
-            assert!(bs.draw(true, now).is_ok());
+            let r = bs.draw(true, now);
+            assert!(r.is_ok());
+            std::mem::forget(r); // (the drop glue of an io::Result whose variant CBMC cannot fix is very expensive)
         }
         let ntext = if use_println { 1 } else { 0 };
         let nbar = if status == 2 { 0 } else { 1 };
@@ -47,9 +53,8 @@ mod verif_c01_compose {
             }
         }
         assert!(target_last_rows(&bs.draw_target) == nbar); // text rows are never counted
-        kani::cover!(status == 1 && use_println);
-        kani::cover!(status == 2 && b == 1);
-        kani::cover!(status == 0);
+        kani::cover!(b == 1);
+        kani::cover!(b == 0);
         std::mem::forget(bs);
     }
 
@@ -62,12 +67,32 @@ mod verif_c01_compose {
         run(true);
     }
 
+    // (the status is concrete per harness here: with a symbolic status the forced-or-finished flag of BarState::draw is symbolic
+    //  and CBMC runs out of 16 GB)
     // @harness id=C01 tier=quick timeout=1800 mem=16 checks=rust
-    // @bounds BarState::draw (forced), same states: the frame is the bar line (none when cleared)
+    // @bounds BarState::draw (forced) on a bar in progress, previous frame of 0..=1 rows: the frame is the bar line
     #[kani::proof]
     #[kani::unwind(6)]
     //@STUBS std now widthascii noterm nomulti rlany noweight fsrecord dttcontract
-    fn c01_compose_draw() {
-        run(false);
+    fn c01_compose_draw_in_progress() {
+        run_status(false, 0);
+    }
+
+    // @harness id=C01 tier=quick timeout=1800 mem=16 checks=rust
+    // @bounds BarState::draw (forced) on a bar finished visibly: the frame is still the bar line
+    #[kani::proof]
+    #[kani::unwind(6)]
+    //@STUBS std now widthascii noterm nomulti rlany noweight fsrecord dttcontract
+    fn c01_compose_draw_finished() {
+        run_status(false, 1);
+    }
+
+    // @harness id=C01 tier=quick timeout=1800 mem=16 checks=rust
+    // @bounds BarState::draw (forced) on a bar finished and cleared: nothing of the bar is painted, the old frame is erased
+    #[kani::proof]
+    #[kani::unwind(6)]
+    //@STUBS std now widthascii noterm nomulti rlany noweight fsrecord dttcontract
+    fn c01_compose_draw_cleared() {
+        run_status(false, 2);
     }
 }
